@@ -75,7 +75,7 @@ impl<'a> GeneratorState<'a> {
                 let c = self.last_included_char.next();
                 c?;
                 let c = c.unwrap();
-                self.last_included_position += 1;
+                self.last_included_position += c.len_utf8();
                 if c == '\n' {
                     self.last_included_line_number += 1;
                     start_of_line = self.last_included_char.clone();
@@ -89,7 +89,7 @@ impl<'a> GeneratorState<'a> {
                     return Some(start_of_line.as_str());
                 }
                 let c = c.unwrap();
-                self.last_included_position += 1;
+                self.last_included_position += c.len_utf8();
                 if c == '\n' {
                     self.last_included_line_number += 1;
                     return Some(
@@ -1377,8 +1377,16 @@ impl<'a> GeneratorState<'a> {
         // debug!("{:?}, {}, {}, {}", expr, pos, self.last_included_position, self.last_included_line_number);
         if self.insert_code {
             let included_source_code = self.generate_included_source_code_line(code.pos);
-            let line_number =
-                self.compiler_state.mapped_lines[self.last_included_line_number].1 - 1;
+            // The line just read may be the last one of the source
+            let line_number = match self
+                .compiler_state
+                .mapped_lines
+                .get(self.last_included_line_number)
+                .or(self.compiler_state.mapped_lines.last())
+            {
+                Some(l) => l.1.saturating_sub(1),
+                None => 0,
+            };
             let line_to_be_written =
                 included_source_code.map(|line| format!("(l.{line_number}) {line}"));
             // debug!("{:?}, {}, {}", line_to_be_written, self.last_included_position, self.last_included_line_number);
@@ -1387,7 +1395,11 @@ impl<'a> GeneratorState<'a> {
                 let mut lx = self.whitespaces_regex.replace_all(&l, " ");
                 if lx.len() > 256 {
                     let lxx = lx.to_mut();
-                    lxx.truncate(256);
+                    let mut cut = 256;
+                    while !lxx.is_char_boundary(cut) {
+                        cut -= 1;
+                    }
+                    lxx.truncate(cut);
                     lxx.push_str("...\n");
                     self.comment(&lxx)?; // Should include the '\n'
                 } else {
